@@ -63,6 +63,9 @@ pub struct K17 {
     /// (at the first connect attempt after the drop)
     #[serde(default)]
     pub airports_spoiled: Option<String>,
+    /// `TZ` of the client (None = UTC)
+    #[serde(default)]
+    pub tz: Option<String>,
 }
 
 /// kinds of `--airports` arguments; the first three are files radar can use
@@ -125,7 +128,19 @@ fn gen_event(rng: &mut Rng, cols: u16, rows: u16) -> KEv {
     match rng.below(100) {
         0..=24 => key(*rng.pick(&["F1", "F2", "F3", "F3", "F4", "F5", "Tab"])),
         25..=49 => key(*rng.pick(&["Up", "Down", "Down", "Down", "Enter", "Enter", "Left", "Right"])),
-        50..=59 => key(*rng.pick(&["c:l", "c:i", "c:h", "c:t", "c:n", "c:-", "c:+", "c:c", "c:x", "c:Q", "Esc", "Backspace", "PageDown", "PageUp", "Home", "End", "BackTab", "Delete", "Insert", "c: ", "F6", "F12", "c:0", "c:\u{e9}", "Null"])),
+        50..=56 => key(*rng.pick(&["c:l", "c:i", "c:h", "c:t", "c:n", "c:-", "c:+", "c:c", "c:x", "c:Q", "Esc", "Backspace", "PageDown", "PageUp", "Home", "End", "BackTab", "Delete", "Insert", "c: ", "F6", "F12", "c:0", "c:\u{e9}", "Null"])),
+        57..=59 => {
+            // letters of other scripts; a third of them share their low byte with a command key
+            let low = *rng.pick(&[b'q', b'l', b'i', b'h', b't', b'n', b'-', b'+', b'c', b'Q']) as u32;
+            let c = loop {
+                let hi = 1 + rng.below(0xff) as u32;
+                let cp = if rng.chance(0.35) { (hi << 8) | low } else { 0x100 + rng.below(0xff00) as u32 };
+                if let Some(c) = char::from_u32(cp) {
+                    break c;
+                }
+            };
+            key(&format!("c:{c}"))
+        }
         60..=64 => {
             // modifiers on non-quit keys (plain q and exact ctrl+c are the only quit requests)
             let code = *rng.pick(&["Up", "Down", "Enter", "F3", "c:l", "c:+", "Tab"]);
@@ -182,7 +197,7 @@ pub const INVALID_CLI: [&[&str]; 20] = [
 pub fn generate(rng: &mut Rng, fault_free: bool) -> K17 {
     if !fault_free && rng.chance(0.08) {
         let a = *rng.pick(&INVALID_CLI);
-        return K17 { args: vec![], cols: 80, rows: 24, refused_first: 0, lines: vec![], events: vec![], quit_at_us: 100_000, quit_ctrl_c: false, proc_delay_us: vec![], reconnect_at_us: None, invalid_cli: Some(a.iter().map(|s| s.to_string()).collect()), rx: (35.0, -80.0), sweep: 0, compass: 0, ev_delay_us: vec![], gpsd: None, airports: None, rust_log: None, connect_errnos: vec![], airports_spoiled: None };
+        return K17 { args: vec![], cols: 80, rows: 24, refused_first: 0, lines: vec![], events: vec![], quit_at_us: 100_000, quit_ctrl_c: false, proc_delay_us: vec![], reconnect_at_us: None, invalid_cli: Some(a.iter().map(|s| s.to_string()).collect()), rx: (35.0, -80.0), sweep: 0, compass: 0, ev_delay_us: vec![], gpsd: None, airports: None, rust_log: None, connect_errnos: vec![], airports_spoiled: None, tz: None };
     }
     let (cols, rows) = if fault_free {
         *rng.pick(&[(80u16, 24u16), (120, 40)])
@@ -255,6 +270,8 @@ pub fn generate(rng: &mut Rng, fault_free: bool) -> K17 {
                     wire::me_airborne_position(11, 0, 0, wire::ac12_q(10_000 + 1000 * a as i32), false, odd, yz, xz)
                 }
                 // every velocity report with its own random vector: headings all round the compass
+                // (a helicopter in the hover now and then: exactly 0 kt on both axes)
+                _ if rng.chance(0.08) => wire::me_velocity(1, 0, wire::sub_ground_speed(rng.below(2) as u8, 1, rng.below(2) as u8, 1), 0, 0, 1 + rng.below(3) as u16, 0, 3),
                 _ => wire::me_velocity(1 + rng.below(2) as u8, 0, wire::sub_ground_speed(rng.below(2) as u8, 1 + rng.below(1023) as u16, rng.below(2) as u8, 1 + rng.below(1023) as u16), rng.below(2) as u8, rng.below(2) as u8, rng.below(512) as u16, 0, 3),
             };
             lines.push((t, wire::hex(&wire::df17(5, addr, me))));
@@ -368,6 +385,7 @@ pub fn generate(rng: &mut Rng, fault_free: bool) -> K17 {
     }
     let rust_log = if !fault_free && rng.chance(0.3) { Some((*rng.pick(&["trace", "debug", "info", "rsadsb_common=trace", "radar=trace,adsb_deku=debug", "warn", ""])).to_string()) } else { None };
     let connect_errnos: Vec<i32> = if !fault_free && rng.chance(0.3) { (0..3).map(|_| *rng.pick(&[0, 0, 101, 113, 100, 104, 103, 4, 13, 99])).collect() } else { vec![] };
+    let tz = if !fault_free && rng.chance(0.4) { Some((*rng.pick(&["EST5EDT", "PST8PDT", "<-03>3", "<+0530>-5:30", "JST-9", "America/New_York", "<-11>11", "<+13>-13", "UTC0"])).to_string()) } else { None };
     // a session left alone: nothing from the operator and nothing new from the server for one to
     // five minutes of simulated time (every timer the client may own fires in that time)
     let long_quiet = !fault_free && rng.chance(0.012);
@@ -420,9 +438,9 @@ pub fn generate(rng: &mut Rng, fault_free: bool) -> K17 {
         let args: Vec<String> = args.into_iter().filter(|a| !a.starts_with("--filter-time") && a != "--retry-tcp" && !a.starts_with("--max-range") && a != "--limit-parsing").collect();
         let mut args = args;
         args.retain(|a| a != "--disable-heading");
-        return K17 { args, cols, rows, refused_first: 0, lines: vec![], events, quit_at_us, quit_ctrl_c: false, proc_delay_us: vec![], reconnect_at_us: None, invalid_cli: None, rx: (35.0, -80.0), sweep, compass, ev_delay_us: vec![], gpsd: None, airports: None, rust_log: None, connect_errnos: vec![], airports_spoiled: None };
+        return K17 { args, cols, rows, refused_first: 0, lines: vec![], events, quit_at_us, quit_ctrl_c: false, proc_delay_us: vec![], reconnect_at_us: None, invalid_cli: None, rx: (35.0, -80.0), sweep, compass, ev_delay_us: vec![], gpsd: None, airports: None, rust_log: None, connect_errnos: vec![], airports_spoiled: None, tz: None };
     }
-    K17 { args, cols, rows, refused_first, lines, events, quit_at_us, quit_ctrl_c: rng.chance(0.3), proc_delay_us, reconnect_at_us, invalid_cli: None, rx: RX, sweep: 0, compass: 0, ev_delay_us, gpsd, airports, rust_log, connect_errnos, airports_spoiled }
+    K17 { args, cols, rows, refused_first, lines, events, quit_at_us, quit_ctrl_c: rng.chance(0.3), proc_delay_us, reconnect_at_us, invalid_cli: None, rx: RX, sweep: 0, compass: 0, ev_delay_us, gpsd, airports, rust_log, connect_errnos, airports_spoiled, tz }
 }
 
 pub fn compile(sc: &K17) -> KChild {
@@ -482,7 +500,7 @@ pub fn compile(sc: &K17) -> KChild {
         let mut events = sc.events.clone();
         events.sort_by_key(|e| e.at_us);
         events.push(KEvent { at_us: sc.quit_at_us.max(events.last().map(|e| e.at_us).unwrap_or(0)), ev: KEv::Key { code: "c:q".into(), ctrl: false, shift: false, alt: false } });
-        return KChild { file_ops: vec![], rust_log: sc.rust_log.clone(), gpsd: None, ev_delay_us: vec![], connects, events, proc_delay_us: vec![], coalesce: vec![false], step_budget: 60_000 + 8 * (sc.sweep + sc.compass) as u64 };
+        return KChild { tz: sc.tz.clone(), file_ops: vec![], rust_log: sc.rust_log.clone(), gpsd: None, ev_delay_us: vec![], connects, events, proc_delay_us: vec![], coalesce: vec![false], step_budget: 60_000 + 8 * (sc.sweep + sc.compass) as u64 };
     }
     match sc.reconnect_at_us.filter(|_| sc.args.iter().any(|a| a == "--retry-tcp")) {
         Some(rc) => {
@@ -517,7 +535,7 @@ pub fn compile(sc: &K17) -> KChild {
         }
         KGpsd { refuse: *refuse, lines }
     });
-    KChild { file_ops, rust_log: sc.rust_log.clone(), gpsd, ev_delay_us: sc.ev_delay_us.clone(), connects, events, proc_delay_us: sc.proc_delay_us.clone(), coalesce: vec![], step_budget: 40_000 + sc.quit_at_us / 12_000 }
+    KChild { tz: sc.tz.clone(), file_ops, rust_log: sc.rust_log.clone(), gpsd, ev_delay_us: sc.ev_delay_us.clone(), connects, events, proc_delay_us: sc.proc_delay_us.clone(), coalesce: vec![], step_budget: 40_000 + sc.quit_at_us / 12_000 }
 }
 
 pub fn is_quit_json(j: &str) -> bool {
@@ -673,6 +691,9 @@ pub fn execute(sc: &K17) -> Outcome {
     if sc.rust_log.is_some() {
         out.fault("diagnostics_switched_on");
     }
+    if sc.tz.is_some() {
+        out.fault("local_time_zone_not_utc");
+    }
     if p.run.seam_log.contains(" FILE ") {
         out.fault("airports_file_spoiled_while_running");
     }
@@ -778,6 +799,9 @@ pub fn shrink(sc: &K17) -> Vec<K17> {
     }
     if !sc.connect_errnos.is_empty() {
         c.push(K17 { connect_errnos: vec![], ..sc.clone() });
+    }
+    if sc.tz.is_some() {
+        c.push(K17 { tz: None, ..sc.clone() });
     }
     if sc.airports_spoiled.is_some() {
         c.push(K17 { airports_spoiled: None, ..sc.clone() });
